@@ -356,6 +356,25 @@ func alter(r *sim.Run, src *issued, secrets [][]byte) *issued {
 			return nil
 		}
 		nt.token = encode(m)
+		if len(cav) > 0 && len(cav) < 128 && t.Chance(250) {
+			// the same caveat, encoded with an explicit verification-id field
+			// of length zero (v2 packet 0x04 0x00) behind its identifier: the
+			// macaroon library reads that as a first-party caveat like any
+			// other, so the signature still fits; the token still carries an
+			// additional caveat
+			bin, _ := m.MarshalBinary()
+			pat := append(append([]byte{2, byte(len(cav))}, cav...), 0)
+			if i := bytes.LastIndex(bin, pat); i >= 0 {
+				at := i + len(pat) - 1
+				crafted := append(append(append([]byte{}, bin[:at]...), 4, 0), bin[at:]...)
+				tok := base64.RawURLEncoding.EncodeToString(crafted)
+				if c2, derr := decode(tok); derr == nil && len(c2.Caveats()) == len(m.Caveats()) {
+					nt.token = tok
+					nt.how += " (empty verification id)"
+					r.Probe("appended_caveat_with_empty_verification_id")
+				}
+			}
+		}
 	case 7: // re-mint the same caveats under another secret
 		o, err := decode(src.token)
 		if err != nil {
